@@ -3,6 +3,7 @@
   the correspondence `path.split`.
 -/
 import Kust.PathSplit
+import Kust.Lemmas.PathSplit
 namespace Kust.C14
 open Kust Kust.PathSplit
 
@@ -192,5 +193,37 @@ theorem splitScan_joinEsc (d : Char) (hd : d ≠ '\\') (es : List (List Char)) (
       have : c ≠ d := fun e => hstart r (by rw [hj, e])
       simp [skipLead, this]
   rw [this, scan_joinEsc d hd es hne hall]
+
+/-- **the splitter written like the Go code IS the scan**: splitting at every delimiter and re-joining the pieces whose
+    predecessor ends in a backslash (`PathSplitter`'s two loops, model `split`) computes, for every path and every
+    delimiter, what one left-to-right scan computes -/
+theorem split_is_scan (d : Char) (path : String) : split d path = splitScan d path :=
+  split_eq_splitScan d path
+
+/-- … so the round trip holds of the Go-shaped model itself: elements written with their delimiters escaped and joined
+    by the delimiter are split back into exactly these elements, however many delimiters each contains -/
+theorem split_joinEsc (d : Char) (hd : d ≠ '\\') (es : List (List Char)) (hne : es ≠ [])
+    (hall : ∀ e ∈ es, e.getLast? ≠ some '\\') (hfirst : ∀ e, es.head? = some e → e ≠ []) :
+    split d (String.ofList (joinEsc d es)) = es.map String.ofList := by
+  rw [split_is_scan]; exact splitScan_joinEsc d hd es hne hall hfirst
+
+theorem smarterGo_plain (d : Char) : ∀ (l : List String), (∀ e ∈ l, Str.hasPrefix e "[" = false) →
+    smarterGo d none l = l := by
+  intro l
+  induction l with
+  | nil => intro _; simp [smarterGo]
+  | cons e r ih =>
+    intro h
+    simp only [smarterGo, h e (by simp), Bool.false_and, Bool.false_eq_true, if_false]
+    rw [ih (fun x hx => h x (by simp [hx]))]
+
+/-- **without brackets the smarter splitter is the splitter**: when no element starts with `[`, the bracket handling
+    changes nothing -/
+theorem smarter_plain (d : Char) (path : String) (h : ∀ e ∈ split d path, Str.hasPrefix e "[" = false) :
+    smarter d path = split d path := by
+  unfold smarter; exact smarterGo_plain d _ h
+
+example : split '/' (String.ofList (joinEsc '/' ["metadata".toList, "a/b/c/d".toList, "x".toList]))
+    = ["metadata", "a/b/c/d", "x"] := by decide
 
 end Kust.C14
